@@ -58,10 +58,45 @@ impl<Comm: Rec, OV: Rec, OP: Rec> ProofTargets<Comm, OV, OP> {
 } // verus!
 '''
 
+BP_SPEC = r'''
+verus! {
+pub struct Terminal(pub Fv);
+pub struct BatchProof<CI, PI> { pub commitments: BatchCommitments<CI>, pub opened_values: BatchOpenedValues, pub opening_proof: PI, pub lookup_terminals: Vec<Option<Terminal>>, pub degree_bits: Vec<usize> }
+pub struct BatchProofTargets<Comm, OP> { pub commitments_targets: CommitmentTargets<Comm>, pub flattened_opened_values_targets: OpenedValuesTargetsWithLookups, pub opened_values_targets: BatchOpenedValuesTargets,
+    pub opening_proof: OP, pub lookup_terminals: Vec<Option<Target>>, pub degree_bits: Vec<usize> }
+/// the present entries of the first n slots, in order
+pub open spec fn somes(s: Seq<Option<ExprId>>, n: int) -> Seq<ExprId> decreases n { if n <= 0 { Seq::empty() } else { match s[n - 1] { Some(t) => somes(s, n - 1).push(t), None => somes(s, n - 1) } } }
+pub open spec fn some_vals(s: Seq<Option<Terminal>>, n: int) -> Seq<Fv> decreases n { if n <= 0 { Seq::empty() } else { match s[n - 1] { Some(t) => some_vals(s, n - 1).push(t.0), None => some_vals(s, n - 1) } } }
+pub proof fn lemma_somes_prefix(a: Seq<Option<ExprId>>, b: Seq<Option<ExprId>>, n: int)
+    requires 0 <= n <= a.len(), n <= b.len(), forall|k: int| 0 <= k < n ==> #[trigger] a[k] == b[k]
+    ensures somes(a, n) == somes(b, n) decreases n { if n > 0 { lemma_somes_prefix(a, b, n - 1); } }
+pub open spec fn bp_pubs<Comm: Rec, OP: Rec>(r: &BatchProofTargets<Comm, OP>) -> Seq<ExprId> { r.commitments_targets.pubs_() + r.opening_proof.pubs() + somes(r.lookup_terminals@, r.lookup_terminals@.len() as int) }
+pub open spec fn bp_privs<Comm: Rec, OP: Rec>(r: &BatchProofTargets<Comm, OP>) -> Seq<ExprId> { r.commitments_targets.privs_() + targets_flat_b(r.opened_values_targets.instances@) + r.opening_proof.privs() }
+pub open spec fn bp_pub_vals<Comm: Rec, OP: Rec>(i: &BatchProof<Comm::Input, OP::Input>) -> Seq<Fv> { CommitmentTargets::<Comm>::pub_vals_(&i.commitments) + OP::pub_vals(&i.opening_proof) + some_vals(i.lookup_terminals@, i.lookup_terminals@.len() as int) }
+pub open spec fn bp_priv_vals<Comm: Rec, OP: Rec>(i: &BatchProof<Comm::Input, OP::Input>) -> Seq<Fv> { values_flat_b(i.opened_values.instances@) + OP::priv_vals(&i.opening_proof) }
+/// contracts proved for BatchOpenedValuesTargets in unit pack
+#[verifier::external_body]
+pub fn batch_opened_new(circuit: &mut CircuitBuilder, input: &BatchOpenedValues) -> (r: BatchOpenedValuesTargets)
+    ensures final(circuit).privs@ == old(circuit).privs@ + targets_flat_b(r.instances@), final(circuit).pubs@ == old(circuit).pubs@,
+            r.instances@.len() == input.instances@.len()
+{ unimplemented!() }
+#[verifier::external_body]
+pub fn batch_opened_get_private_values(input: &BatchOpenedValues) -> (r: Vec<Fv>) ensures r@ == values_flat_b(input.instances@) { unimplemented!() }
+/// `lookup_terminals.iter().flatten().map(|t| t.0)`: the values of the present terminals, in order
+#[verifier::external_body]
+pub fn present_terminal_values(t: &Vec<Option<Terminal>>) -> (r: Vec<Fv>) ensures r@ == some_vals(t@, t@.len() as int) { unimplemented!() }
+impl CircuitBuilder {
+    #[verifier::external_body]
+    pub fn alloc_public_input(&mut self, label: &'static str) -> (r: ExprId) ensures final(self).pubs@ == old(self).pubs@.push(r), final(self).privs@ == old(self).privs@ { unimplemented!() }
+}
+} // verus!
+'''
 
-def norm(f, typename):
+
+def norm(f, typename, drop_phantom=True):
     f.rewrite_re('R12', r'\bSelf \{', typename + ' {', min_count=0)
-    f.rewrite_re('R11', r',?\s*_phantom: PhantomData,?', '', min_count=0)
+    if drop_phantom:
+        f.rewrite_re('R11', r',?\s*_phantom: PhantomData,?', '', min_count=0)
     f.rewrite_re('R6', r'((?:\w+\.)+\w+)\.clone\(\)', r'clone_of(&\1)', min_count=0)
     f.rewrite_re('R11', r'\blet mut values = vec!\[\];', 'let mut values: Vec<Fv> = Vec::new();', min_count=0)
     # values.extend(<call>) with an owned vector (multi-line calls allowed)
@@ -128,6 +163,76 @@ pub fn get_private_values<Comm: Rec>(input: &BatchCommitments<Comm::Input>) -> (
     pp.ensures('values_in_the_traversal_order', 'ret@ == ProofTargets::<Comm, OV, OP>::priv_vals_(input)')
     u.text('verus! { pub mod proof_targets { use super::*;')
     for f in (pn, pv, pp):
+        u.emit(f, vis='pub')
+    u.text('} }')
+
+    # ------------------------------------------------------------------ BatchProofTargets
+    from units.pack import SPEC as PACK_SPEC
+    st = extract_item(P, r'pub struct OpenedValuesTargets<SC: StarkGenericConfig>')
+    st = st.replace('OpenedValuesTargets<SC: StarkGenericConfig>', 'OpenedValuesTargets').replace('PhantomData<SC>', 'PhantomData<()>')
+    st2 = extract_item(P, r'pub struct OpenedValuesTargetsWithLookups<SC: StarkGenericConfig>').replace('OpenedValuesTargetsWithLookups<SC: StarkGenericConfig>', 'OpenedValuesTargetsWithLookups').replace('OpenedValuesTargets<SC>', 'OpenedValuesTargets')
+    st3 = extract_item(P, r'pub\(crate\) struct BatchOpenedValuesTargets<SC: StarkGenericConfig>').replace('BatchOpenedValuesTargets<SC: StarkGenericConfig>', 'BatchOpenedValuesTargets').replace('OpenedValuesTargetsWithLookups<SC>', 'OpenedValuesTargetsWithLookups').replace('pub(crate) ', 'pub ')
+    u.text('verus! {\n// extracted on every run (as in unit pack)\n' + st + '\n' + st2 + '\n' + st3 + '\n}')
+    u.text(PACK_SPEC)
+    u.text(BP_SPEC)
+    BI = r'Recursive<SC::Challenge> for BatchProofTargets<SC, Comm, OpeningProof>'
+    BS = [(r'CommitmentTargets::<SC::Challenge, Comm>::get_values\(', 'commitment_targets::get_values::<Comm>('), (r'CommitmentTargets::new\(', 'commitment_targets::new::<Comm>('),
+          (r'BatchOpenedValuesTargets::<SC>::get_private_values\(', 'batch_opened_get_private_values('), (r'BatchOpenedValuesTargets::new\(', 'batch_opened_new('), (r'OpeningProof::', 'OP::')]
+
+    def bt(name):
+        f = u.extract(P, BI, name, f'BatchProofTargets::{name}')
+        for a, b in BS:
+            f.rewrite_re('R11', a, b, min_count=0)
+        m = re.search(r'let BatchProof \{([^}]*)\} = input;', f.body)
+        if m:
+            lets = []
+            for part in [x.strip() for x in m.group(1).split(',') if x.strip()]:
+                fld, nm = ([t.strip() for t in part.split(':')] + [None])[:2] if ':' in part else (part, part)
+                if nm != '_':
+                    lets.append(f'let {nm} = &input.{fld};')
+            f.body = f.body[:m.start()] + ' '.join(lets) + f.body[m.end():]
+            f.rewrites.append(('R1', 'destructuring of the borrowed input -> one borrow per field', ''))
+        f.rewrite_re('R6', r'\.chain\(lookup_terminals\.iter\(\)\.flatten\(\)\.map\(\|t\| t\.0\)\)', '.chain(present_terminal_values(lookup_terminals))', min_count=0)
+        f.rewrite_re('R6', r'chunk\.clone\(\)', 'clone_of(chunk)', min_count=0)
+        return norm(f, 'BatchProofTargets', drop_phantom=False)
+    BGEN = '<Comm: Rec, OP: Rec>'
+    BINP = 'BatchProof<Comm::Input, OP::Input>'
+    bn = bt('new')
+    bn.set_sig('R11', f'fn new{BGEN}(circuit: &mut CircuitBuilder, input: &{BINP}) -> BatchProofTargets<Comm, OP>')
+    bn.rewrite_re('R5', r'for (\w+) in &opened_values_targets\.instances \{', r'for bi_ in 0..opened_values_targets.instances.len() { let \1 = &opened_values_targets.instances[bi_];', min_count=0)
+    bn.rewrite_re('R5', r'for (\w+) in &instance\.opened_values_no_lookups\.quotient_chunks_targets \{', r'for qc_ in 0..instance.opened_values_no_lookups.quotient_chunks_targets.len() { let \1 = &instance.opened_values_no_lookups.quotient_chunks_targets[qc_];', min_count=0)
+    bn.rewrite_re('R6', r'(aggregated_\w+)\.extend\(&(instance\.[\w.]+)\);', r'\1.extend_from_slice(\2.as_slice());', min_count=0)
+    bn.rewrite_re('R6', r'(aggregated_\w+)\.extend\((\w+)\);', r'\1.extend_from_slice(\2.as_slice());', min_count=0)
+    bn.rewrite_re('R6', r'let mut (aggregated_quotient_chunks) = Vec::with_capacity\(num_instances\);', r'let mut \1: Vec<Vec<Target>> = Vec::with_capacity(num_instances);', min_count=0)
+    bn.rewrite_re('R6', r'let mut (aggregated_\w+) = Vec::with_capacity\(num_instances\);', r'let mut \1: Vec<Target> = Vec::with_capacity(num_instances);', min_count=0)
+    bn.rewrite_re('R6', r'\.collect::<Vec<_>>\(\)', '.collect()', min_count=0)
+    bn.rewrite_re('R6', r'terminal\s*\.as_ref\(\)\s*\.map\(\|_\| circuit\.alloc_public_input\("lookup terminal"\)\)', '(match terminal { Some(_) => Some(circuit.alloc_public_input("lookup terminal")), None => None })', min_count=0)
+    from vf.unit import unmap_iter_collect_general
+    unmap_iter_collect_general(bn)
+    bn.attr('#[verifier::loop_isolation(false)]')
+    bn.ensures('allocation_order_is_the_traversal_order', 'final(circuit).pubs@ == old(circuit).pubs@ + bp_pubs(&ret) && final(circuit).privs@ == old(circuit).privs@ + bp_privs(&ret)')
+    bn.ensures('as_many_public_targets_as_values', 'bp_pubs(&ret).len() == bp_pub_vals::<Comm, OP>(input).len()')
+    TL = 'for m0_ in 0..input.lookup_terminals.len()'
+    if TL in bn.body:
+        bn.rewrite_re('SPEC-type', r'let mut v_m0_ = Vec::new\(\);', 'let mut v_m0_: Vec<Option<Target>> = Vec::new();', min_count=1)
+        bn.before(TL, 'let ghost p_t = circuit.pubs@; let ghost q_t = circuit.privs@; proof { assert(somes(v_m0_@, 0) =~= Seq::<ExprId>::empty()); }')
+        lo = bn._loop_open(TL)
+        bn.body = bn.body[:lo + 1] + ' let ghost v_b = v_m0_@; ' + bn.body[lo + 1:]
+        bn.at_loop_end(TL, '''proof { assert(v_m0_@ =~= v_b.push(x_m0_)); lemma_somes_prefix(v_m0_@, v_b, m0_ as int); assert(circuit.pubs@ =~= p_t + somes(v_m0_@, m0_ + 1)); }''')
+        bn.loop(TL, invariants=[('terminals_allocated_in_order', '''v_m0_@.len() == m0_ && circuit.pubs@ == p_t + somes(v_m0_@, m0_ as int) && circuit.privs@ == q_t
+                && somes(v_m0_@, m0_ as int).len() == some_vals(input.lookup_terminals@, m0_ as int).len()''')])
+    bn.bind_tail('r_', '''proof {
+            assert(circuit.pubs@ =~= old(circuit).pubs@ + bp_pubs(&r_)); // @@A:batch_proof_publics_allocated_in_the_order_commitments_opening_proof_terminals
+            assert(circuit.privs@ =~= old(circuit).privs@ + bp_privs(&r_)); // @@A:batch_proof_privates_allocated_in_the_order_commitments_opened_values_opening_proof
+        }''')
+    bv = bt('get_values')
+    bv.set_sig('R11', f'fn get_values{BGEN}(input: &{BINP}) -> Vec<Fv>')
+    bv.ensures('values_in_the_traversal_order', 'ret@ == bp_pub_vals::<Comm, OP>(input)')
+    bp_ = bt('get_private_values')
+    bp_.set_sig('R11', f'fn get_private_values{BGEN}(input: &{BINP}) -> Vec<Fv>')
+    bp_.ensures('values_in_the_traversal_order', 'ret@ == bp_priv_vals::<Comm, OP>(input)')
+    u.text('verus! { pub mod batch_proof_targets { use super::*;')
+    for f in (bn, bv, bp_):
         u.emit(f, vis='pub')
     u.text('} }')
     return u
